@@ -303,20 +303,27 @@ CHECKS["C06"] = dict(
 
 CHECKS["C18"] = dict(
     level="exploration",
-    level_text=("runtime monitor + race detector: R in {1,8,64,128/512} requests with unique attribute values are served concurrently through "
-                "hlog.NewHandler and a random subset/order of all field handlers (AccessHandler at a random position) via ServeHTTP on fake "
-                "ResponseWriters of the three capability sets; every event must carry only its own request's marker and exactly the expected ordered "
-                "keys/values, the request id must equal the response header and IDFromRequest, the base logger must be unchanged, and AccessHandler's "
-                "(status, size) must equal what the fake ResponseWriter recorded for every WriteHeader/Write/short/error/ReadFrom/Flush script up to "
-                "length 4 (quick) / 5 (thorough), enumerated exhaustively across the rounds."),
+    level_text=("runtime monitor + race detector: R in {1,8,64,128/512} requests with unique attribute values (some attributes absent, IPv6 and port-less "
+                "addresses, HTTP/1.0, 1.1 and 2.0, some requests arriving with an id already in their context) are served concurrently through "
+                "hlog.NewHandler and a random subset/order of all field handlers (three RequestIDHandler configurations; AccessHandler at a random "
+                "position, in a quarter of the rounds a second, nested one) via ServeHTTP on fake ResponseWriters of five capability sets (basic, Flusher, "
+                "full, Flusher+ReaderFrom, Flusher+CloseNotifier); every event - those of the final handler and the one logged from the access callback - "
+                "must carry only its own request's marker and exactly the expected request fields and values (pre-handlers' fields in all events, "
+                "post-handlers' fields in the access event when nested inside it); all places a request id shows up (fields, response headers, "
+                "IDFromRequest, a pre-seeded id) must agree and no two requests of a round may share one; the base logger must be unchanged; and every "
+                "AccessHandler's (status, size), called exactly once also when the handler panics with http.ErrAbortHandler, must equal what the fake "
+                "ResponseWriter recorded for every WriteHeader / Write (full, empty, short, failing) / ReadFrom (also from a failing source) / Flush / "
+                "panic script up to length 3 (quick) / 5 (thorough), enumerated exhaustively against every capability set across the rounds, random "
+                "longer scripts beyond."),
     technique="runtime monitoring: per-request marker isolation + response-script enumeration against recording fake ResponseWriters, race detector",
     stages=lambda tier: [dict(variant="vh", cmd="c18", shards=8, timeout=3000),
                          dict(variant="vh-race", cmd="c18", shards=8, timeout=3000, race=True)],
     rule=("one case = one request (handler chain x capability set x response script); non-trivial = non-empty script or non-empty handler chain; "
-          "distinct by hash of (script, capability set, handler order, AccessHandler position)"),
+          "distinct by hash of (script, capability set, handler order, AccessHandler positions)"),
     assumptions=["requests are driven through ServeHTTP directly (no sockets); Flush alone is not treated as sending a status",
-                 "Tee is not reachable through hlog's public API and is not exercised"],
-    require=dict(requests_served=2000),
+                 "Tee is not reachable through hlog's public API and is not exercised",
+                 "the order of the fields inside an event is not judged here (C03 owns layout)"],
+    require=dict(requests_served=2000, requests_aborted_by_panic=100, rounds_with_request_ids_compared=20),
 )
 
 CHECKS["C05"] = dict(
